@@ -3,10 +3,12 @@
    the context; c02_post equates the four flags with it and adds the implications of the property
    (Inexact -> Rounded on finite results, Overflow -> Inexact) and the absence of every division,
    invalid-operation and system condition.  Division conditions in special cells: Properties/C08.v.
-   QuoInteger/Rem: Properties/C10.v.  Quo, Quantize, Sqrt: oracle + correspondence only. *)
+   QuoInteger: Properties/C10.v; Quantize / RoundToIntegral: Properties/C09.v (Inexact iff digits were lost, then
+   Rounded, never Underflow / Overflow, InvalidOperation exactly when the result does not fit).  Sqrt: oracle +
+   correspondence only. *)
 From Coq Require Import ZArith Bool.
 From Apd Require Import Generated.Consts Model.Base Model.NumDigits Model.Decimal Model.Context Spec.SpecZ
-  Proofs.Core Proofs.SetExponent Proofs.RoundSpec Proofs.OpsProofs Proofs.QuoProofs Proofs.SeRoundProofs Proofs.OpsProjections.
+  Proofs.Core Proofs.SetExponent Proofs.RoundSpec Proofs.OpsProofs Proofs.QuoProofs Proofs.SeRoundProofs Proofs.OpsProjections Proofs.DivProofs Proofs.FitProofs.
 Open Scope Z_scope.
 
 Theorem C02_round est : est_in_range est -> forall c (x : dec), ctx_ok c -> finite_nn x -> exact_in_limits c (exact_of_dec x) ->
@@ -45,3 +47,23 @@ Theorem C02_quo est : est_in_range est -> forall c (x y : dec), quo_hyps c x y -
   exists d f, ctx_quo est c x y = Ok (finish c d f) /\ c02_post c (exact_quo x y) d f.
 Proof. exact (c02_quo est). Qed.
 Print Assumptions C02_quo.
+
+(* Rem: the conditions describe the one rounding of the exact remainder; DivisionImpossible - and nothing
+   else - exactly when the integer quotient needs more than Precision digits *)
+Theorem C02_rem est : est_in_range est -> forall c x y,
+  ctx_ok c -> finite_nn x -> finite_nn y -> coeff y <> 0 -> Z.abs (exp x - exp y) <= MaxExponent ->
+  let E := mkExact (neg x) (al_a x y mod al_b x y) 1 (al_exp x y) in
+  exact_in_limits c E ->
+  if ndigits (al_a x y / al_b x y) >? prec c
+  then ctx_rem est c x y = Ok (finish c d_nan fDivisionImpossible)
+  else exists d f, ctx_rem est c x y = Ok (finish c d f) /\ c02_post c E d f.
+Proof. exact (c02_rem est). Qed.
+Print Assumptions C02_rem.
+
+(* Reduce: exactly the conditions of its one rounding; removing trailing zeros raises nothing and never turns a
+   finite result into a special value or back *)
+Theorem C02_reduce est : est_in_range est -> forall c x, ctx_ok c -> finite_nn x -> exact_in_limits c (exact_of_dec x) ->
+  exists d' f n, ctx_reduce est c x = Ok (finish c d' f, n) /\
+    exists d, c02_post c (exact_of_dec x) d f /\ (form_of d' = Finite <-> form_of d = Finite).
+Proof. exact (c02_reduce est). Qed.
+Print Assumptions C02_reduce.
